@@ -66,6 +66,13 @@ func staticCallee(cc *ssa.CallCommon) *ssa.Function {
 		if f, ok := v.Fn.(*ssa.Function); ok {
 			return f
 		}
+	case *ssa.UnOp:
+		// a local closure variable assigned once (possibly captured by the calling closure)
+		if mc, ok := strip(v).(*ssa.MakeClosure); ok {
+			if f, ok := mc.Fn.(*ssa.Function); ok {
+				return f
+			}
+		}
 	}
 	return nil
 }
